@@ -1698,7 +1698,6 @@ def gen_discr_spec(rng):
     depth = len(levels)
     lower = None
     for j, lv in enumerate(levels):
-        lv.pop("hook", None)
         if lv["config"] is None and rng.random() < 0.6:
             inherit = lower is not None and rng.random() < 0.5
             lv["config"] = {"plain": levels[lower]["config"]["plain"] if inherit else rng.random() < 0.3,
@@ -1738,6 +1737,7 @@ def gen_discr_spec(rng):
 def discr_stream(ctx, rng, k4_ok):
     from mashumaro.codecs import BasicDecoder
     from mashumaro.core.meta.code.builder import CodeBuilder
+    from mashumaro.mixins.dict import DataClassDictMixin
     k109a_ok = bool(ctx.kernel_report.get("K109a", {}).get("ok"))
     items, shown = [], []
     views, vshown = [], []
@@ -1797,12 +1797,17 @@ def discr_stream(ctx, rng, k4_ok):
         keys = keys[:7]
         dfl = c_defaults(spec)
         dtxt = f"Definition dh{ci} : list dlevel := {c_dlevels(mro)}."
+        hooked = o_hook(spec) is not None
+        ctx.hist("discr_stream", f"nearest discriminator {'-' if nd is None else 'with field' if nd[1] else 'without field'}, "
+                                 f"{'hook' if hooked else 'no hook'}")
+        uses_mixin = vlib.coq_bool(DataClassDictMixin in K.__mro__)
         for ks in subsets(keys, rng, ctx.budget(24, 64)):
             d = make_dict(ks, keys, rng)
-            exp = o_keymodel(ospec, d)
+            dh = o_apply_hook(spec, d)                # the dispatcher test comes first, then K's hook, then the keys
+            exp = o_keymodel(ospec, dh)
             obs0 = None
             for ename, call in ents:
-                obs = observe(spec, call, d)
+                obs = observe(spec, call, d, seen=dh if hooked else None)
                 ctx.count(("discr", ci, repr(sorted(map(repr, d.items()))), ename))
                 ctx.hist("outcome", obs[0] + " (discriminator stream)")
                 obs0 = obs if obs0 is None else obs0
@@ -1810,20 +1815,23 @@ def discr_stream(ctx, rng, k4_ok):
                     LISTED.fail(ctx, "discr", len(items), f"{ename}({d!r}) -> {obs!r}, KEYMODEL says {exp!r}",
                                 replay_of(ospec, src, ename, d, obs, exp),
                                 {"kind": "key-resolution", "observed": obs[0], "expected": exp[0]})
-            items.append((f"h{ci}", dtxt, f"(dh{ci}, {dfl}, {c_dict(d)}, {c_obs(obs0)})"))
+            items.append((f"h{ci}", dtxt, f"(dh{ci}, {c_hooks(spec)}, {uses_mixin}, {dfl}, {c_dict(d)}, {c_obs(obs0)})"))
             shown.append((src, d, obs0))
         drop_module(mod)
-    MODEL = ("KeyModel KeyImpl KeyProofs KeyCfg PyK_alias PyK_clsdiscr KeyDiscr", "From VerifGen Require Import K4 K109a.", ["theories/KeyDiscr.vo"])
+    MODEL = ("KeyModel KeyImpl KeyProofs KeyCfg KeyRewrite PyK_alias PyK_clsdiscr KeyDiscr KeyHookLookup KeyFull",
+             "From VerifGen Require Import K4 K109a K109b.", ["theories/KeyFull.vo"])
     n1 = "discriminator: get_discriminator(K109a)/nearest_discr/own_discr-vs-CodeBuilder.get_discriminator"
-    n2 = "discriminator: impl_from_dhier(K4,K109a)/keymodel with nearest_discr-vs-from_dict"
-    if k4_ok and k109a_ok:
+    n2 = "discriminator+hooks: impl_from_class(K4,K109a,K109b)/keymodel with nearest_discr on the hooked mapping-vs-from_dict"
+    if k4_ok and k109a_ok and bool(ctx.kernel_report.get("K109b", {}).get("ok")):
         bad, log = coq_check("c09_dview", MODEL, views, "fun c => match c with (r, p, o) => discr_view_ok r p o end", ctx,
                              ctype="list dlevel * option (option string) * option (option string)")
-        bad2, log2 = coq_check("c09_dhier", MODEL, items, "fun c => match c with (r, dfl, d, o) => dhier_ok r dfl d o end", ctx,
-                               ctype="list dlevel * list Z * dict * observation")
+        bad2, log2 = coq_check("c09_dhier", MODEL, items,
+                               "fun c => match c with (r, hk, mx, dfl, d, o) => dfull_ok r hk mx dfl d o end", ctx,
+                               ctype="list dlevel * list (option (list hookop)) * bool * list Z * dict * observation")
     else:
         bad = bad2 = None
-        log = log2 = "kernel K109a / K4 did not translate: " + str(ctx.kernel_report.get("K109a", {}).get("error"))
+        log = log2 = "kernel K109a / K109b / K4 did not translate: " + str(ctx.kernel_report.get("K109a", {}).get("error")) \
+            + " / " + str(ctx.kernel_report.get("K109b", {}).get("error"))
     settle(ctx, "discr-view", n1, len(views), bad, log,
            lambda b: f"{len(b)} cases, first: class {vshown[b[0]][1]}: get_discriminator(True/False) = {vshown[b[0]][2]!r}\n{vshown[b[0]][0]}")
     settle(ctx, "discr", n2, len(items), bad2, log2,
@@ -1838,7 +1846,7 @@ THEOREMS = ["K4_precedence", "K4_key_plan", "K4_allowed_keys", "C09_impl_is_code
             "C09_nearest_declaration", "C09_nearest_config", "C09_get_config", "C09_builder_config", "C09_fields_unique", "C09_alias_from_sources",
             "C09_mro_chain", "C09_mro_roots", "C09_own_view_finished", "C09_own_view_raw", "C09_nested", "C09_nested_inner_options", "C09_pre_hook", "C09_nearest_hook", "C09_hook_rename",
             "C09_dc_lookup", "C09_dc_chain", "C09_dc_roots", "C09_dataclass_fields_dc", "C09_deep", "C09_deep_list", "C09_deep_map_keys", "C09_deep_hooks", "C09_deep_no_hooks", "C09_inner_hook",
-            "C09_get_discriminator", "C09_own_discriminator", "C09_keys_discr", "C09_discr_accepted", "C09_discr_config_inheritance", "C09_declared_hook", "C09_pre_hook_code",
+            "C09_get_discriminator", "C09_own_discriminator", "C09_keys_discr", "C09_discr_accepted", "C09_discr_config_inheritance", "C09_declared_hook", "C09_pre_hook_code", "C09_from_class",
             "C09_field_key", "C09_outcome", "C09_alias_wins", "C09_fallback", "C09_accepted_covers_reads",
             "C09_reads_allowed", "C09_extra_members", "C09_extra_exact", "C09_ignored", "C09_forbidden_reported"]
 
